@@ -36,6 +36,16 @@ CONDS = {
     "elem_vs_parent": ("cmp", "gt", E, A(X, "p")),
 }
 VX = ("x", "let", "Item", "P")
+# parents whose elements are parents of the same domain (mutual references: the same objects can be bound to the parent
+# variable and to the element)
+EP = A(E, "p")
+OCONDS = {
+    "none": None,
+    "both": ("and", ("cmp", "ge", EP, L(1)), ("cmp", "ge", A(X, "p"), L(1))),
+    "or": ("or", ("cmp", "eq", EP, L(1)), ("cmp", "eq", A(X, "p"), L(2))),
+    "elem_vs_parent": ("cmp", "ne", EP, A(X, "p")),
+    "three": ("and", ("and", ("cmp", "ge", EP, L(1)), ("cmp", "le", A(X, "p"), L(2))), ("cmp", "le", EP, L(2))),
+}
 
 
 def inner_values(max_len, scalars=True):
@@ -77,6 +87,7 @@ def worlds(tier):
 
 
 def cases(tier, inst):
+    yield from friend_cases(tier)
     seen = set()
     for combo in worlds(tier):
         if combo in seen:
@@ -90,13 +101,26 @@ def cases(tier, inst):
                     yield (combo, sk, ck, caching)
 
 
+def friend_cases(tier):
+    inner = [()] + [(i,) for i in range(3)] + [(i, j) for i in range(3) for j in range(3) if i != j]
+    for combo in itertools.product(inner, repeat=3):
+        if tier == "quick" and sum(len(i) for i in combo) > 4:
+            continue
+        for sk in ("pe", "ep", "e"):
+            for ck in OCONDS:
+                for caching in ((True, False) if ck in ("both", "or") else (True,)):
+                    yield (("obj",) + combo, sk, ck, caching)
+
+
 def wspec_of(combo):
+    if combo and combo[0] == "obj":
+        return (("P", "Item", tuple((("p", i % 2 + 1), ("items", ())) for i in range(len(combo) - 1))),)
     return (("P", "Item", tuple((("p", i % 2 + 1), ("items", inner)) for i, inner in enumerate(combo))),)
 
 
 def query_of(case):
     combo, sk, ck, caching = case
-    c = CONDS[ck]
+    c = (OCONDS if combo and combo[0] == "obj" else CONDS)[ck]
     return ("Q", "an", "setof", SELS[sk], (c,) if c else (), (VX,))
 
 
@@ -106,9 +130,12 @@ def run_case(case, inst):
 
     def body():
         world = build_world(wspec_of(combo), inst)
+        if combo and combo[0] == "obj":
+            for po, inner in zip(world["P"], combo[1:]):
+                po.items = tuple(world["P"][j] for j in inner)
         ref = Q.Ref(world, inst)
         exp = [tuple(ref.value(s, env) for s in q[3]) for env in ref.solutions(q)]
-        total = sum(len(i) if isinstance(i, tuple) else 1 for i in combo)
+        total = sum(len(i) if isinstance(i, tuple) else 1 for i in combo if i != "obj")
         try:
             obj, b = Q.build(q, world, inst)
             sel = b.sel[q]
@@ -141,7 +168,9 @@ def run_case(case, inst):
 
 def describe(case, inst):
     combo, sk, ck, caching = case
-    return (("enable_caching()" if caching else "disable_caching()") + "\n" + Q.up_world(wspec_of(combo), inst) + "\n"
+    friends = ("\n" + "; ".join(f"P[{i}].items = ({', '.join(f'P[{j}]' for j in inner)}{',' if len(inner) == 1 else ''})"
+                                for i, inner in enumerate(combo[1:])) if combo and combo[0] == "obj" else "")
+    return (("enable_caching()" if caching else "disable_caching()") + "\n" + Q.up_world(wspec_of(combo), inst) + friends + "\n"
             + Q.up_query(query_of(case), inst).replace("flatten(x.items)", "e").replace("q = ", "e = flatten(x.items); q = ", 1)
             + "\nrows1 = list(q.evaluate()); rows2 = list(q.evaluate())"
               "   # expected both: [(p, el) for p in P for el in as_list(p.items) if cond]")
